@@ -75,6 +75,8 @@ type runObs struct {
 	inFlightAtEnd int32
 	log           []invocation
 	leak          error
+
+	invocationsAfterCancelWait int
 }
 
 func execute(c runnerCase) (runObs, error) {
@@ -128,7 +130,28 @@ func execute(c runnerCase) (runObs, error) {
 			maxF = s.Frequency
 		}
 	}
-	time.Sleep(3*maxF + time.Duration(c.FnUs)*time.Microsecond)
+	quiet := 3*maxF + time.Duration(c.FnUs)*time.Microsecond
+	time.Sleep(quiet)
+	if obs.endKind == "cancel" {
+		// After cancellation (without Stop) the runner goroutine leaves at its next select in which the
+		// cancellation is chosen; while a tick is also ready Go's select picks either with probability
+		// 1/2, so the number of further invocations is geometrically distributed and the property's
+		// "no goroutine remains" can only be an eventually. Wait until no invocation has started for a
+		// whole quiet period, allowing up to 64 further invocations (probability 2^-64) before calling
+		// it a runner that does not stop.
+		count := func() int { mu.Lock(); defer mu.Unlock(); return len(obs.log) }
+		last, extra := count(), 0
+		for extra < 64 {
+			time.Sleep(quiet)
+			if n := count(); n != last || inFlight.Load() != 0 {
+				extra += max(1, n-last)
+				last = n
+				continue
+			}
+			break
+		}
+		obs.invocationsAfterCancelWait = extra
+	}
 	obs.leak = goleak.Find(leakOpt)
 	mu.Lock()
 	obs.log = append([]invocation{}, obs.log...)
